@@ -68,7 +68,7 @@ def _jsonable(x):
 
 
 # ------------------------------------------------------------------------------------------------ E1-generic obligations
-def compare_num(got, want, rtol=1e-8, atol=1e-9):
+def compare_num(got, want, rtol=1e-8, atol=1e-9, floor=1.0):
     got = np.asarray(got)
     want = np.asarray(want)
     if got.shape != want.shape:
@@ -79,7 +79,7 @@ def compare_num(got, want, rtol=1e-8, atol=1e-9):
         return False, "non-finite values in result"
     err = float(np.max(np.abs(got - want)))
     scale = float(np.max(np.abs(want))) if want.size else 0.0
-    ok = err <= atol + rtol * max(scale, 1.0)
+    ok = err <= atol + rtol * max(scale, floor)
     return ok, f"max|got-want|={err:.3e} (scale {scale:.3e})"
 
 
@@ -258,7 +258,8 @@ class GOb(Obligation):
             G.reset_execution()
             rng = np.random.RandomState(seed)
             S = NumNS(env, rng)
-            S.scale = {1: 0.05, 3: 0.2, 4: 20.0}.get(seed, 1.0)
+            S.scale = {1: 0.05, 3: 0.2, 4: 20.0, 6: 1e-18}.get(seed, 1.0)
+            tiny = S.scale < 1e-6   # data far below machine epsilon in absolute terms (guards written as `x <= eps` instead of `x == 0` show only there): compare relative to the values themselves
             I = concretize_args(self.setup(S), env)
             I0 = copy.deepcopy(I)  # the spec is evaluated on the inputs as they were before the call
             try:
@@ -270,7 +271,7 @@ class GOb(Obligation):
             if self.raises is not None:
                 return False, f"no {self.raises.__name__} raised"
             for label, got, want in (self.post(S, I0, res) if self.post else []):
-                ok, info = compare_num(got, want)
+                ok, info = compare_num(got, want, 1e-6, 0.0, 0.0) if tiny else compare_num(got, want)
                 if not ok:
                     return False, f"{label}: {info}"
                 if self.check_dtype and hasattr(got, "dtype") and hasattr(want, "dtype") and np.asarray(got).dtype != np.asarray(want).dtype:
@@ -280,7 +281,7 @@ class GOb(Obligation):
     def _concretize(self, path, why):
         tried = []
         for env in self._envs(path):
-            for seed in (int(os.environ.get("VERIF_SEED", "0") or 0), 1, 2, 3, 4, 5):
+            for seed in (int(os.environ.get("VERIF_SEED", "0") or 0), 1, 2, 3, 4, 5, 6):
                 try:
                     ok, info = self.native(env, seed)
                 except Exception as e:  # harness problem: report, do not claim
